@@ -3,6 +3,9 @@ import Model.LoaderBin
 import Model.Search
 import Generated.C10
 import Proofs.LoaderArpa
+import Proofs.LoaderProbing
+import Proofs.LoaderTrieBuild
+import Proofs.LoaderProbingBuild
 import Proofs.Search
 import Proofs.WellFormed
 /-! C10 — Loaders reject malformed input with an exception and never misbehave.
@@ -107,10 +110,12 @@ example : (LoaderArpa.parse 6 true demoBytes).toOption.map (fun p => (p.order, p
 /-- trailing junk after a number stays in the stream: `-0.25a b` is the bigram `a b` with probability −1/4 -/
 example : (LoaderArpa.parse 6 true (str "\\data\\\nngram 1=2\nngram 2=1\n\n\\1-grams:\n-1\ta\n-2\tb\n\n\\2-grams:\n-0.25a b\n\n\\end\\\n")).toOption.map
     (fun p => p.grams.getD 1 []) = some [([2, 1], .fin (-1/4) false, 0)] := by decide +kernel
-/-- `-inf` is an accepted probability, `inf` as a back-off is a format error, `NaN` a parse error -/
+/-- `-inf` and `NaN` are accepted probabilities, `inf` / `NaN` as a back-off is a format error, a signed NaN a parse error -/
 example : (readNum (str "-inf\tx")).toOption.map (·.1) = some (.inf true) := by decide +kernel
 example : backoffOf (.inf false) = .error .format := rfl
-example : (match readNum (str "NaN\tx") with | .error .parse => true | _ => false) = true := by decide +kernel
+example : backoffOf .nan = .error .format := rfl
+example : (readNum (str "NaN\tx")).toOption.map (·.1) = some .nan := by decide +kernel
+example : (match readNum (str "-NaN\tx") with | .error .parse => true | _ => false) = true := by decide +kernel
 
 /-! ## the builders: every error class exactly under its condition -/
 
@@ -514,6 +519,394 @@ theorem probing_ignores_duplicates (maxO : Nat) (multOk : Bool) (b : Nat → Nat
 two adjacent copies in one batch are not -/
 example : crossBatchDup [[1,2],[3,4],[5,6],[7,8],[1,2]] 2 = true := by decide +kernel
 example : crossBatchDup [[1,2],[1,2],[5,6],[7,8],[9,9]] 2 = false := by decide +kernel
+
+/-! ## accepted by the probing family -/
+
+/-- C01's `WellFormed` with the context clause weakened to what the probing builder guarantees: the context of every n-gram
+is an n-gram of the file **or a blank** (a proper reversed prefix, of length ≥ 2, of an n-gram of the file — the entries
+`FindLower` hallucinates, which `Table.build` also contains).  `WellFormed` is the special case without the second disjunct. -/
+structure WellFormedThroughBlanks (a : Arpa) : Prop where
+  order_ge : 2 ≤ a.order
+  len_pos : ∀ g, a.gram g ≠ none → g ≠ []
+  len_le : ∀ g, a.gram g ≠ none → g.length ≤ a.order
+  ctx_reachable : ∀ x g, g ≠ [] → a.gram (x :: g) ≠ none →
+    a.gram g ≠ none ∨ ∃ h, a.gram h ≠ none ∧ 2 ≤ g.length ∧ g.length < h.length ∧ g = h.take g.length
+  top_bo : ∀ g e, a.gram g = some e → g.length = a.order → e.backoff = 0
+
+/-- what the front end alone guarantees about the `Arpa` of an accepted file: everything in `WellFormed` except the
+context clause, plus the two bridges between `p.keys` and `Arpa.gram` -/
+theorem parsed_core (maxO : Nat) (multOk : Bool) (s : Bytes) (p : LParsed) (u : Rat)
+    (hp : LoaderArpa.parse maxO multOk s = .ok p) :
+    2 ≤ (p.toArpa u).order ∧
+    (∀ g, (p.toArpa u).gram g ≠ none → g ≠ []) ∧
+    (∀ g, (p.toArpa u).gram g ≠ none → g.length ≤ (p.toArpa u).order) ∧
+    (∀ g e, (p.toArpa u).gram g = some e → g.length = (p.toArpa u).order → e.backoff = 0) ∧
+    (∀ g, 2 ≤ g.length → (p.toArpa u).gram g ≠ none → g ∈ (p.grams.drop 1).flatten.map (·.1)) ∧
+    (∀ k ∈ p.keys, (p.toArpa u).gram k ≠ none) := by
+  have wf := accepted_wellformed maxO multOk s p hp
+  have mem : ∀ g e, (p.toArpa u).gram g = some e →
+      (g = [0] ∧ e.backoff = 0) ∨ ∃ le ∈ p.entries, toEntry le = (g, e) := by
+    intro g e hg
+    have hm := KV.Score.lookup_some_mem _ _ _ hg
+    unfold LParsed.toArpa at hm
+    simp only at hm
+    split at hm
+    · exact Or.inr (by simpa [List.mem_map] using hm)
+    · rcases List.mem_cons.mp hm with hh | hh
+      · left
+        simp only [Prod.mk.injEq] at hh
+        exact ⟨hh.1, by rw [hh.2]⟩
+      · exact Or.inr (by simpa [List.mem_map] using hh)
+  have sect : ∀ le ∈ p.entries, ∃ (i : Nat) (es : List LE), p.grams[i]? = some es ∧ le ∈ es := by
+    intro le hle
+    unfold LParsed.entries at hle
+    obtain ⟨es, hes, hle⟩ := List.mem_flatten.mp hle
+    obtain ⟨i, hi, hget⟩ := List.getElem_of_mem hes
+    exact ⟨i, es, by rw [List.getElem?_eq_getElem hi, hget], hle⟩
+  have key1 : ∀ le, (toEntry le).1 = le.1 := by
+    intro le; unfold toEntry; split <;> rfl
+  have keybo : ∀ le, (toEntry le).2.backoff = le.2.2 := by
+    intro le; unfold toEntry; split <;> rfl
+  have glen : p.grams.length = p.order := by
+    have := congrArg List.length wf.2.2.2.1
+    simpa [wf.2.2.1] using this
+  refine ⟨wf.1, ?_, ?_, ?_, ?_, ?_⟩
+  · intro g hg hnil
+    obtain ⟨e, he⟩ := Option.ne_none_iff_exists'.mp hg
+    rcases mem g e he with ⟨h0, _⟩ | ⟨le, hle, hte⟩
+    · subst hnil; simp at h0
+    · obtain ⟨i, es, hi, hmem⟩ := sect le hle
+      have ok := wf.2.2.2.2.2.2 i es hi le hmem
+      have : g = le.1 := by rw [← key1 le, hte]
+      subst this
+      have := ok.len
+      rw [hnil] at this; simp at this
+  · intro g hg
+    obtain ⟨e, he⟩ := Option.ne_none_iff_exists'.mp hg
+    show g.length ≤ p.order
+    rcases mem g e he with ⟨h0, _⟩ | ⟨le, hle, hte⟩
+    · subst h0; simp only [List.length_cons, List.length_nil]; have := wf.1; omega
+    · obtain ⟨i, es, hi, hmem⟩ := sect le hle
+      have ok := wf.2.2.2.2.2.2 i es hi le hmem
+      have : g = le.1 := by rw [← key1 le, hte]
+      subst this
+      rw [ok.len]
+      have : i < p.grams.length := by
+        rcases List.getElem?_eq_some_iff.mp hi with ⟨hlt, _⟩; exact hlt
+      omega
+  · intro g e hg hlen
+    rcases mem g e hg with ⟨h0, hb0⟩ | ⟨le, hle, hte⟩
+    · exact hb0
+    · obtain ⟨i, es, hi, hmem⟩ := sect le hle
+      have ok := wf.2.2.2.2.2.2 i es hi le hmem
+      have hgk : g = le.1 := by rw [← key1 le, hte]
+      have hi1 : i + 1 = p.order := by
+        have := ok.len
+        rw [← hgk] at this
+        have hl : g.length = p.order := hlen
+        omega
+      have := ok.topbo (by simp [hi1])
+      have he : e = (toEntry le).2 := by rw [hte]
+      rw [he, keybo le]
+      exact this
+  · intro g h2 hg
+    obtain ⟨e, he⟩ := Option.ne_none_iff_exists'.mp hg
+    rcases mem g e he with ⟨h0, _⟩ | ⟨le, hle, hte⟩
+    · subst h0; simp at h2
+    · obtain ⟨i, es, hi, hmem⟩ := sect le hle
+      have ok := wf.2.2.2.2.2.2 i es hi le hmem
+      have hgk : g = le.1 := by rw [← key1 le, hte]
+      have hi1 : 1 ≤ i := by
+        have := ok.len
+        rw [← hgk] at this
+        omega
+      rw [hgk]
+      apply List.mem_map_of_mem
+      apply List.mem_flatten.mpr
+      refine ⟨es, ?_, hmem⟩
+      obtain ⟨j, rfl⟩ : ∃ j, i = j + 1 := ⟨i - 1, by omega⟩
+      have : (p.grams.drop 1)[j]? = some es := by
+        rw [List.getElem?_drop]; rw [Nat.add_comm]; exact hi
+      exact List.mem_of_getElem? this
+  · intro k hk hnone
+    unfold LParsed.keys at hk
+    obtain ⟨le, hle, rfl⟩ := List.mem_map.mp hk
+    have hin : toEntry le ∈ (p.toArpa u).entries := by
+      unfold LParsed.toArpa
+      simp only
+      have : toEntry le ∈ p.entries.map toEntry := List.mem_map_of_mem hle
+      split
+      · exact this
+      · exact List.mem_cons_of_mem _ this
+    unfold Arpa.gram at hnone
+    have := List.lookup_eq_none_iff.mp hnone
+    simp at this
+    exact this _ _ hin (key1 le).symm
+
+/-- **probing_accept_wellformed.**  Whatever the probing family accepts (front end, then blank insertion / context-so-far /
+capacity checks of the builder model) has order ≥ 2, non-empty keys no longer than the order, no back-off on the highest
+order, the vocabulary covered (the context word of a bigram has a unigram entry), and the context of every longer n-gram
+is an n-gram of the file or one of its blanks. -/
+theorem probing_accept_wellformed (maxO : Nat) (multOk : Bool) (b : Nat → Nat) (s : Bytes) (p : LParsed) (u : Rat) (mem : Nat)
+    (h : load .probing maxO multOk b s mem = .ok p) : WellFormedThroughBlanks (p.toArpa u) := by
+  unfold load at h
+  split at h
+  · simp at h
+  · rename_i p' hp
+    split at h
+    · simp at h
+    · rename_i hb
+      split at h
+      · simp at h
+      simp only [Except.ok.injEq] at h
+      subst h
+      obtain ⟨h1, h2, h3, h4, h5, h6⟩ := parsed_core maxO multOk s p' u hp
+      have hflag : (probingRun p').2 = true := ((probing_error_classes b p').2.2.mp hb).1
+      have wf := accepted_wellformed maxO multOk s p' hp
+      -- every line of order ≥ 2 is a key of the file and non-empty
+      have hall : ∀ g ∈ (p'.grams.drop 1).flatten.map (·.1), g ∈ p'.keys ∧ 0 < g.length := by
+        intro g hg
+        obtain ⟨le, hle, rfl⟩ := List.mem_map.mp hg
+        obtain ⟨es, hes, hmem⟩ := List.mem_flatten.mp hle
+        have hes' : es ∈ p'.grams := List.mem_of_mem_drop hes
+        refine ⟨?_, ?_⟩
+        · unfold LParsed.keys LParsed.entries
+          exact List.mem_map_of_mem (List.mem_flatten.mpr ⟨es, hes', hmem⟩)
+        · obtain ⟨i, hi, hget⟩ := List.getElem_of_mem hes'
+          have ok := wf.2.2.2.2.2.2 i es (by rw [List.getElem?_eq_getElem hi, hget]) le hmem
+          rw [ok.len]; omega
+      have reach := run_reach p'.keys p'.order _ ([], true) hall (by intro k hk; cases hk) hflag
+      refine ⟨h1, h2, h3, ?_, h4⟩
+      intro x g hne hg
+      cases g with
+      | nil => exact absurd rfl hne
+      | cons w g' =>
+        cases g' with
+        | nil =>
+          obtain ⟨e, he⟩ := Option.ne_none_iff_exists'.mp hg
+          exact Or.inl (parse_unigramsCover maxO multOk s p' u hp x w e he)
+        | cons w2 g2 =>
+          have hin := h5 (x :: w :: w2 :: g2) (by simp) hg
+          have := reach _ hin (by simp)
+          simp only [List.tail_cons] at this
+          rcases this with hk | ⟨hh, hhk, hl2, hlt, heq⟩
+          · exact Or.inl (h6 _ hk)
+          · exact Or.inr ⟨hh, h6 _ hhk, hl2, hlt, heq⟩
+
+/-- without blanks (every reversed prefix of an n-gram is an n-gram: what lmplz writes) the weakened predicate is C01's -/
+theorem wellFormed_of_prefixClosed (a : Arpa) (w : WellFormedThroughBlanks a)
+    (pc : ∀ h j, a.gram h ≠ none → 1 ≤ j → j < h.length → a.gram (h.take j) ≠ none) : KV.Score.WellFormed a := by
+  refine ⟨w.order_ge, w.len_pos, w.len_le, ?_, w.top_bo⟩
+  intro x g hne hg
+  rcases w.ctx_reachable x g hne hg with h | ⟨h, hh, h2, hlt, heq⟩
+  · exact h
+  · rw [heq]; exact pc h g.length hh (by omega) hlt
+
+/-- accepted by the probing family and prefix-closed ⇒ C01's `WellFormed` (so `fullScore_prob` etc. apply) -/
+theorem probing_accept_wellformed_prefixClosed (maxO : Nat) (multOk : Bool) (b : Nat → Nat) (s : Bytes) (p : LParsed) (u : Rat)
+    (mem : Nat) (h : load .probing maxO multOk b s mem = .ok p)
+    (pc : ∀ h j, (p.toArpa u).gram h ≠ none → 1 ≤ j → j < h.length → (p.toArpa u).gram (h.take j) ≠ none) :
+    KV.Score.WellFormed (p.toArpa u) :=
+  wellFormed_of_prefixClosed _ (probing_accept_wellformed maxO multOk b s p u mem h) pc
+
+/-- the converse view: C01's `WellFormed` is the weakened predicate with the blank disjunct never used -/
+theorem wellFormedThroughBlanks_of_wellFormed (a : Arpa) (w : KV.Score.WellFormed a) : WellFormedThroughBlanks a :=
+  ⟨w.order_ge, w.len_pos, w.len_le, fun x g hne hg => Or.inl (w.ctx_present x g hne hg), w.top_bo⟩
+
+/-! ## the loader model's trie verdict against `KV.TrieBuild.buildTable` (builder `binary`'s model of lm/search_trie.cc)
+
+`buildTable` has the error type `Table.build` lacks, so the `.error ⇒ condition` directions can be stated against it.  Its input
+is the list of all n-grams *including* the hallucinated `<unk>`: the keys of `p.toArpa`. -/
+
+theorem gram_ne_none_iff (a : Arpa) (k : List Word) : a.gram k ≠ none ↔ k ∈ a.entries.map (·.1) := by
+  unfold Arpa.gram
+  constructor
+  · intro h
+    obtain ⟨e, he⟩ := Option.ne_none_iff_exists'.mp h
+    exact List.mem_map.mpr ⟨(k, e), KV.Score.lookup_some_mem _ _ _ he, rfl⟩
+  · intro h hn
+    have := List.lookup_eq_none_iff.mp hn
+    obtain ⟨q, hq, rfl⟩ := List.mem_map.mp h
+    simp at this
+    exact this _ _ hq rfl
+
+theorem toArpa_keys (p : LParsed) (u : Rat) :
+    (p.toArpa u).entries.map (·.1) = if p.sawUnk then p.keys else [0] :: p.keys := by
+  have key1 : ∀ le, (toEntry le).1 = le.1 := by
+    intro le; unfold toEntry; split <;> rfl
+  have : (p.entries.map toEntry).map (·.1) = p.keys := by
+    unfold LParsed.keys
+    rw [List.map_map]
+    apply List.map_congr_left
+    intro le _
+    exact key1 le
+  unfold LParsed.toArpa
+  simp only
+  split <;> simp [this]
+
+/-- **`buildTable = .error .missingContext` ⇒ the loader model's trie verdict is FormatLoadException.**  (The bigram case of
+`buildTable`'s check cannot fire on a parsed file: the unigrams cover the vocabulary.) -/
+theorem trie_reject_of_buildTable_missingContext (maxO : Nat) (multOk : Bool) (s : Bytes) (p : LParsed) (u : Rat) (b : Nat → Nat)
+    (fadd : Nat → Nat → Nat) (gs : List KV.TrieBuild.Gram)
+    (hp : LoaderArpa.parse maxO multOk s = .ok p) (hk : gs.map (·.key) = (p.toArpa u).entries.map (·.1))
+    (h : KV.TrieBuild.buildTable fadd p.order gs = .error .missingContext) :
+    buildCheck .trie b p = .error .format := by
+  obtain ⟨g, hg, hl, hr⟩ := KV.TrieBuild.buildTable_missingContext fadd p.order gs h
+  have htail : g.key.drop 1 ∉ (p.toArpa u).entries.map (·.1) := by
+    rw [← hk]
+    intro hm
+    obtain ⟨g', hg', he⟩ := List.mem_map.mp hm
+    exact hr g' hg' he
+  have hkey : g.key ∈ (p.toArpa u).entries.map (·.1) := by rw [← hk]; exact List.mem_map_of_mem hg
+  have hkp : g.key ∈ p.keys := by
+    rw [toArpa_keys] at hkey
+    split at hkey
+    · exact hkey
+    · rcases List.mem_cons.mp hkey with h0 | h0
+      · rw [h0] at hl; simp at hl
+      · exact h0
+  have hsub : ∀ k, k ∈ p.keys → k ∈ (p.toArpa u).entries.map (·.1) := by
+    intro k hk'
+    rw [toArpa_keys]
+    split
+    · exact hk'
+    · exact List.mem_cons_of_mem _ hk'
+  unfold LParsed.keys at hkp
+  obtain ⟨le, hle, hlek⟩ := List.mem_map.mp hkp
+  by_cases h3 : 3 ≤ g.key.length
+  · apply (trie_error_iff b p).1.mpr
+    refine ⟨le, hle, by rw [hlek]; exact h3, ?_⟩
+    intro hin
+    apply htail
+    rw [List.drop_one, ← hlek]
+    exact hsub _ hin
+  · exfalso
+    have h2 : g.key.length = 2 := by omega
+    obtain ⟨x, w, hxw⟩ : ∃ x w, g.key = [x, w] := by
+      match hgk : g.key, h2 with
+      | [x, w], _ => exact ⟨x, w, rfl⟩
+    have hg2 : (p.toArpa u).gram [x, w] ≠ none := (gram_ne_none_iff _ _).mpr (by rw [← hxw]; exact hkey)
+    obtain ⟨e, he⟩ := Option.ne_none_iff_exists'.mp hg2
+    have := parse_unigramsCover maxO multOk s p u hp x w e he
+    apply htail
+    rw [hxw]
+    exact (gram_ne_none_iff _ _).mp this
+
+/-- **the loader model's trie verdict FormatLoadException ⇒ `buildTable` does not succeed** (it reports `missingContext`,
+unless it reports a duplicate or a missing unigram first) -/
+theorem buildTable_not_ok_of_trie_reject (p : LParsed) (u : Rat) (b : Nat → Nat) (fadd : Nat → Nat → Nat)
+    (gs : List KV.TrieBuild.Gram) (hk : gs.map (·.key) = (p.toArpa u).entries.map (·.1))
+    (h : buildCheck .trie b p = .error .format) (built : KV.TrieBuild.Built) :
+    KV.TrieBuild.buildTable fadd p.order gs ≠ .ok built := by
+  obtain ⟨le, hle, h3, hn⟩ := (trie_error_iff b p).1.mp h
+  have hkin : le.1 ∈ gs.map (·.key) := by
+    rw [hk, toArpa_keys]
+    have : le.1 ∈ p.keys := List.mem_map_of_mem hle
+    split
+    · exact this
+    · exact List.mem_cons_of_mem _ this
+  obtain ⟨g, hg, hgk⟩ := List.mem_map.mp hkin
+  apply KV.TrieBuild.buildTable_not_ok_of_missing fadd p.order gs ⟨g, hg, by rw [hgk]; omega, ?_⟩
+  intro g' hg' he
+  have : g'.key ∈ (p.toArpa u).entries.map (·.1) := by rw [← hk]; exact List.mem_map_of_mem hg'
+  rw [he, hgk, List.drop_one, toArpa_keys] at this
+  split at this
+  · exact hn this
+  · rcases List.mem_cons.mp this with h0 | h0
+    · have : le.1.tail.length = 1 := by rw [h0]; rfl
+      simp at this; omega
+    · exact hn h0
+
+/-- **`buildTable = .error .duplicate` ⇒ some n-gram occurs twice in the file.**  (The converse is deliberately not a theorem of
+the loader model: the real sort only notices duplicates that meet in a merge — `trie_duplicate_iff` — whereas `buildTable`
+models the sorted result set-wise.) -/
+theorem duplicate_keys_of_buildTable_duplicate (p : LParsed) (u : Rat) (fadd : Nat → Nat → Nat) (gs : List KV.TrieBuild.Gram)
+    (hk : gs.map (·.key) = (p.toArpa u).entries.map (·.1))
+    (h : KV.TrieBuild.buildTable fadd p.order gs = .error .duplicate) : ¬ ((p.toArpa u).entries.map (·.1)).Nodup := by
+  rw [← hk]
+  exact KV.TrieBuild.buildTable_duplicate fadd p.order gs h
+
+/-! ## the loader model's probing verdict against `KV.ProbingBuild.build` (builder `lm`'s fold-level model of lm/search_hashed.cc)
+
+Two models of the same code: `ProbingBuild` runs real probing tables (hashes, payloads, marks), the loader model a list of keys.
+Full statement (kept visible; **not yet proved as a whole**): -/
+
+/-- **loader_probing_verdict_eq_build** (target statement).  For every parsed, finite file without repeated n-grams, an injective
+word-hash combiner and bucket counts `caps m = b(count_m)` (the highest order's table larger than its count): `ProbingBuild.build`
+never diverges, and it succeeds exactly when the loader model's probing verdict is `ok` (both raise otherwise; the *class* can
+differ only in files that have both a capacity overflow and a missing context, because the loader model tests capacity at the end
+of the run whereas the code stops at the first failure). -/
+def LoaderProbingVerdictEqBuild : Prop :=
+  ∀ (combine : Nat → Word → Nat), (∀ k1 k2 : List Word, KV.ProbingLM.hashOf combine k1 = KV.ProbingLM.hashOf combine k2 → k1 = k2) →
+  ∀ (maxO : Nat) (multOk : Bool) (s : Bytes) (p : LParsed) (u : Rat) (b : Nat → Nat),
+    LoaderArpa.parse maxO multOk s = .ok p → p.finite = true → ((p.toArpa u).entries.map (·.1)).Nodup →
+    p.counts.getD (p.order - 1) 0 < b (p.counts.getD (p.order - 1) 0) → (∀ c, 0 < b c) →
+    let buckets := (List.range (p.order - 1)).map fun i => b (p.counts.getD (i + 1) 0)
+    KV.ProbingBuild.build combine false (p.toArpa u) p.vocab.length buckets u ≠ .error .diverge ∧
+    ((∃ st, KV.ProbingBuild.build combine false (p.toArpa u) p.vocab.length buckets u = .ok st) ↔ buildCheck .probing b p = .ok ())
+
+/-- **loader_probing_verdict_eq_build, partial**: the three places where `ProbingBuild.addLine` can raise are tied to the loader
+model operation by operation, under the representation invariant `KV.LoaderPB.TabInv` (the tables of the `ProbingBuild` state hold
+exactly the loader model's keys, with its counters and capacities):
+* `store.Insert` of a fresh line raises `probingSize` ⇔ the loader model's key count of that order, with the line, reaches the
+  capacity; otherwise the invariant holds for the extended key list (`KV.LoaderPB.insert_sim`);
+* `FindLower` — blank chains of any length — either inserts exactly the blanks the loader model's `findLower` inserts (invariant
+  preserved) or raises `probingSize` at an order whose key count in the loader model reaches the capacity (`findLower_sim`);
+* `ActivateLowerMiddle` raises `format` ⇔ the context is not among the loader model's keys at that moment (`activate_sim`).
+**Missing for the whole-fold statement `LoaderProbingVerdictEqBuild`**: the frame lemma for `AdjustLower` / `fillBlanks` / `markChain`
+(they only update payloads through `St.modify` and every `find` succeeds under `OrdInv`, so no table and no verdict changes), and
+the assembly over the lines (freshness from distinct keys and the by-order line sequence; monotone key counts,
+`KV.LoaderPB.fold_suffix`, to pass from "capacity reached at some line" to the loader model's end-of-run test). -/
+theorem loader_probing_verdict_eq_build_partial (combine : Nat → Word → Nat)
+    (inj : ∀ k1 k2 : List Word, KV.ProbingLM.hashOf combine k1 = KV.ProbingLM.hashOf combine k2 → k1 = k2)
+    (N : Nat) (caps : Nat → Nat) (keys tops : List (List Word)) (s : KV.ProbingBuild.St) (g : List Word)
+    (inv : KV.LoaderPB.TabInv combine N caps keys tops s) :
+    -- Insert
+    (∀ e : Entry, 2 ≤ g.length → g.length ≤ N → g ∉ KV.LoaderPB.keysAt N keys tops g.length →
+      (KV.ProbingBuild.insPhase combine N s g e = .error .probingSize ↔
+        caps g.length ≤ KV.LoaderPB.cnt (KV.LoaderPB.keysAt N keys tops g.length) g.length + 1)) ∧
+    -- FindLower
+    (∀ (f : Nat) (between : List KV.ProbingBuild.Ref), f + 1 < N → f + 1 < g.length →
+      (∃ s' b', KV.ProbingBuild.findLower combine g f s between = .ok (s', b') ∧
+          KV.LoaderPB.TabInv combine N caps (LoaderArpa.findLower g (f + 1) keys) tops s' ∧ s'.uni = s.uni) ∨
+      (KV.ProbingBuild.findLower combine g f s between = .error .probingSize ∧
+          ∃ m, 2 ≤ m ∧ m < N ∧ caps m ≤ KV.LoaderPB.cnt (LoaderArpa.findLower g (f + 1) keys) m)) ∧
+    -- Activate
+    (3 ≤ g.length → g.length ≤ N →
+      (KV.ProbingBuild.activate combine g g.length s = .error .format ↔ g.tail ∉ keys)) :=
+  ⟨fun e h2 hN fresh => (KV.LoaderPB.insert_sim combine inj N caps keys tops s g e inv h2 hN fresh).1,
+   fun f between hf hg => KV.LoaderPB.findLower_sim combine inj N caps tops g f s between keys hf hg inv,
+   fun h3 hN => (KV.LoaderPB.activate_sim combine N caps keys tops s g inv h3 hN).1⟩
+
+/-- the invariant is inhabited: the empty tables `ProbingBuild.build` starts from represent the empty key lists -/
+theorem tabInv_initial (combine : Nat → Word → Nat) (N : Nat) (caps : Nat → Nat) (hN : 2 ≤ N) (hc : ∀ m, 0 < caps m)
+    (uni : List KV.ProbingBuild.W) :
+    KV.LoaderPB.TabInv combine N caps [] []
+      { uni := uni, mid := (List.range (N - 2)).map fun i => KV.ProbingBuild.emptyOrd (caps (i + 2)),
+        longest := KV.ProbingBuild.emptyOrd (caps N) } := by
+  refine ⟨by simp, ?_⟩
+  intro m h2 hmN
+  by_cases hm : m = N
+  · subst hm
+    refine ⟨fun _ => none, ?_, ?_, ?_, ?_⟩
+    · simpa [KV.ProbingBuild.tbl] using KV.ProbingBuild.emptyOrd_inv (caps m) (hc m)
+    · intro k _; simp [KV.LoaderPB.keysAt]
+    · simp [KV.ProbingBuild.tbl, KV.LoaderPB.keysAt, KV.LoaderPB.cnt, KV.ProbingBuild.emptyOrd, KV.Probing.emptyTable]
+    · simp [KV.ProbingBuild.tbl, KV.ProbingBuild.emptyOrd, KV.Probing.emptyTable]
+  · have hlt : m - 2 < N - 2 := by omega
+    have hget : ((List.range (N - 2)).map fun i => KV.ProbingBuild.emptyOrd (caps (i + 2))).getD (m - 2) default
+        = KV.ProbingBuild.emptyOrd (caps m) := by
+      rw [List.getD_eq_getElem?_getD, List.getElem?_map, List.getElem?_range hlt]
+      simp only [Option.map_some, Option.getD_some]
+      congr 2; omega
+    refine ⟨fun _ => none, ?_, ?_, ?_, ?_⟩
+    · simp only [KV.ProbingBuild.tbl, hm, ↓reduceIte, hget]
+      exact KV.ProbingBuild.emptyOrd_inv (caps m) (hc m)
+    · intro k _; simp [KV.LoaderPB.keysAt, hm]
+    · simp only [KV.ProbingBuild.tbl, hm, ↓reduceIte, hget]
+      simp [KV.LoaderPB.keysAt, hm, KV.LoaderPB.cnt, KV.ProbingBuild.emptyOrd, KV.Probing.emptyTable]
+    · simp only [KV.ProbingBuild.tbl, hm, ↓reduceIte, hget]
+      simp [KV.ProbingBuild.emptyOrd, KV.Probing.emptyTable]
 
 /-! ## no index leaves its region -/
 
